@@ -40,7 +40,14 @@ Inductive expr :=
 | EValue (p : list string)               (* =value.p1…   (state only)    *)
 | EErr                                   (* =1/0                          *)
 | EList (es : list expr)
-| EMap (kvs : list (string * expr)).
+| EMap (kvs : list (string * expr))
+| EHas (l : string) (p : list string) (d : expr)
+      (* =has(steps.l.p) ? steps.l.p : d   — celpy: has() is false whenever the path does not resolve *)
+| EFlatten (e : expr)                    (* =flatten(e): koreo helper, list of lists -> list *)
+| EUse (args : list expr) (keep : expr).
+      (* =[helper(args…), keep][1]: a koreo CEL helper (overlay, to_json, lower, split, flatten) is applied
+         to the arguments and its result discarded; the harness only generates applications that succeed
+         whenever the arguments evaluate *)
 
 Record env := { e_steps : list (string * json);   (* ok_outcomes *)
                 e_parent : json;                  (* trigger *)
@@ -94,6 +101,37 @@ Fixpoint eval (e : expr) (en : env) {struct e} : option json :=
                end) kvs with
       | Some vs => Some (JMap vs)
       | None => None
+      end
+  | EHas l p d =>
+      match lookup l (e_steps en) with
+      | Some v => match get_path v p with
+                  | Some x => Some x
+                  | None => eval d en
+                  end
+      | None => eval d en
+      end
+  | EFlatten e' =>
+      match eval e' en with
+      | Some (JList xs) =>
+          (fix go (l : list json) : option json :=
+             match l with
+             | [] => Some (JList [])
+             | JList ys :: r => match go r with
+                                | Some (JList zs) => Some (JList (ys ++ zs))
+                                | _ => None
+                                end
+             | _ :: _ => None        (* not generated: elements are always lists *)
+             end) xs
+      | _ => None
+      end
+  | EUse args keep =>
+      match (fix go (l : list expr) : bool :=
+               match l with
+               | [] => true
+               | x :: r => match eval x en with Some _ => go r | None => false end
+               end) args with
+      | true => eval keep en
+      | false => None
       end
   end.
 
